@@ -59,9 +59,9 @@ def peak_case(draw):
         shape[i] = max(4, shape[i] // 2)
     order = draw(st.sampled_from(["zxz", "zxz", "zzx"]))
     return {"kind": "peaks", "seed": draw(st.integers(0, 2**31 - 1)), "shape": shape, "bumps": draw(st.integers(0, 4)),
-            "n_angles": draw(st.integers(1, 200)), "thr_mode": draw(st.sampled_from(["value", "value", "sigma", "sigma", "zero", "voxel"])),
+            "n_angles": draw(st.one_of(st.integers(1, 200), st.integers(1, 200), st.sampled_from([150, 32769, 40000, 70000]))), "thr_mode": draw(st.sampled_from(["value", "value", "sigma", "sigma", "zero", "voxel"])),
             "top_fraction": draw(st.floats(0.002, 0.08, allow_nan=False)), "sigma": draw(st.floats(1.2, 3.0, allow_nan=False)),
-            "diameter": draw(st.one_of(st.integers(1, 8).map(float), st.floats(1, 8, allow_nan=False))),
+            "diameter": draw(st.one_of(st.integers(1, 8).map(float), st.floats(1, 8, allow_nan=False), st.sampled_from([0.5, 0.9, 0.99]))),
             "numbering": draw(st.integers(0, 1)), "order": order,
             "list_as": "csv" if order == "zzx" else draw(st.sampled_from(["array", "csv"])),
             "tomo_id": draw(st.integers(1, 500)), "object_id": draw(st.one_of(st.none(), st.integers(1, 50))),
@@ -135,6 +135,8 @@ def build_distance(case):
     a[:, [IX["x"], IX["y"], IX["z"]]] = pos - shift
     a[:, [IX["shift_x"], IX["shift_y"], IX["shift_z"]]] = shift
     a[:, IX["subtomo_id"]] = rng.permutation(np.arange(1, 2 * n + 1))[:n]
+    if case["seed"] % 4 == 0:  # merged lists: particle numbers restart, so they repeat inside a group
+        a[:, IX["subtomo_id"]] = rng.integers(1, max(2, n // 2 + 1), n)
     a[:, IX["subtomo_mean"]] = np.arange(n)
     a[:, IX["tomo_id"]] = 1
     a[:, IX["object_id"]] = 1
@@ -296,6 +298,9 @@ def run_peaks(case, out):
         return
     D = float(case["diameter"])
     order = case["order"]
+    if na > 1000:  # long lists are handed over as arrays (writing and parsing tens of thousands of text lines only costs time)
+        case = dict(case, list_as="array", order="zxz")
+        order = "zxz"
     if case["list_as"] == "array":
         alist = anglist.copy()
     else:
